@@ -34,6 +34,9 @@ func runtimeFaultIn(s string) string {
 }
 
 func runC01(c *fw.Ctx) {
+	if ioFaultHook != nil {
+		ioFaultHook(c, "C01")
+	}
 	dir := drv.NewDir(fw.Scratch("c01"))
 	defer os.RemoveAll(filepath.Dir(dir.Path))
 	defer dir.Close()
